@@ -409,7 +409,15 @@ def run_boundary(case, rec):
                 raise Violation("%s/consumption" % name, "consumed %d tape bytes, sampler model %d" % (tape.pos, consumed), **info)
     else:
         # model-free necessary condition: a tape whose every candidate (any masking) is > N must not yield a value
-        allbig = all((vv & ((1 << bits) - 1)) > N and (vv >> (8 * nb - bits) if 8 * nb > bits else vv) > N for _, vv in case["attempts"])
+        def forms(vv):
+            # the ways a sampler may cut `bits` bits out of nb tape bytes: low bits (mask), high bits (shift), and getRandomInteger's own
+            # layout (the first nb-1 bytes are the low part, the odd bits come from the top of the following byte)
+            out = [vv & ((1 << bits) - 1), (vv >> (8 * nb - bits)) if 8 * nb > bits else vv]
+            odd = bits % 8
+            if odd:
+                out.append(((vv & 0xFF) >> (8 - odd)) << (8 * (nb - 1)) | (vv >> 8))
+            return out
+        allbig = all(min(forms(vv)) > N for _, vv in case["attempts"])
         if allbig and v is not None and len(case["attempts"]) == 1 and tape.pos <= nb:
             raise Violation("%s/accepted-out-of-range-candidate" % name, "candidate above the bound produced %d" % v, **info)
     rec.nt(name, bits // 32, mn != 0, tuple(t for t, _ in case["attempts"]))
